@@ -111,8 +111,17 @@ func stringToDFA(value string) *auto.DFA {
 	start := auto.State(0)
 	d := auto.NewDFA(start, nil)
 
+	// A backslash escapes the next character in a string literal (e.g. \" and \\): it is not part of the denoted string.
+	escaped := false
+
 	curr, next := start, start+1
 	for _, r := range value {
+		if r == '\\' && !escaped {
+			escaped = true
+			continue
+		}
+
+		escaped = false
 		d.Add(curr, auto.Symbol(r), next)
 		curr, next = next, next+1
 	}
